@@ -2,6 +2,7 @@ package main
 
 import (
 	"fmt"
+	"os"
 	"net"
 	"strings"
 	"time"
@@ -41,6 +42,10 @@ func c09Run(args []string) (string, [][2]string) {
 		case "B":
 			b.Hub.RegisterRemoteSKI(a.SKI)
 			a.Hub.SetAutoAccept(true)
+		case "B-then-A":
+			// B dials A, which does not trust B yet: the request is pending when the link breaks, so the first connection ends
+			// before its handshake completed; afterwards A's user registers B and B comes back
+			b.Hub.RegisterRemoteSKI(a.SKI)
 		default:
 			a.Hub.RegisterRemoteSKI(b.SKI)
 			b.Hub.RegisterRemoteSKI(a.SKI)
@@ -52,10 +57,24 @@ func c09Run(args []string) (string, [][2]string) {
 			b.Hub.ServiceForSKI(a.SKI).SetShipID(id)
 		}
 		// bound the retry loop of a refused peer
-		fakews.SetDialFault(func(string, int) bool { return len(fakews.Links()) >= 3 })
+		maxLinks := 3
+		if args[0] == "B-then-A" {
+			maxLinks = 6
+		}
+		fakews.SetDialFault(func(string, int) bool { return len(fakews.Links()) >= maxLinks })
 		a.Start()
 		b.Start()
 		simrt.RunFor(4 * time.Second)
+		if args[0] == "B-then-A" {
+			for _, l := range fakews.Links() {
+				if !l.Client.IsClosed() {
+					l.Client.CutLink()
+				}
+			}
+			simrt.RunFor(2 * time.Second)
+			a.Hub.RegisterRemoteSKI(b.SKI)
+			simrt.RunFor(40 * time.Second)
+		}
 		if args[3] == "1" {
 			a.Hub.DisconnectSKI(b.SKI, "again")
 			simrt.RunFor(25 * time.Second)
@@ -103,6 +122,9 @@ func c09Run(args []string) (string, [][2]string) {
 	})
 	if x.Panic != nil {
 		fails = append(fails, [2]string{"panic|" + simrt.PanicKey(x.Panic), x.Panic.Value + "\n" + x.Panic.Stack})
+	}
+	if os.Getenv("VERIF_DEBUG") != "" && args[0] == "B-then-A" {
+		fmt.Fprintln(os.Stderr, "DEBUG", args, obs, "trunc", x.Truncated, "now", x.Now)
 	}
 	return obs, fails
 }
@@ -206,7 +228,7 @@ func c09Main(r *hx.Run) {
 		}
 	}
 	var tasks [][]string
-	for _, who := range []string{"A", "B", "both"} {
+	for _, who := range []string{"A", "B", "both", "B-then-A"} {
 		for _, sa := range []string{"", "right", "wrong"} {
 			for _, sb := range []string{"", "right", "wrong"} {
 				for _, rc := range []string{"0", "1"} {
